@@ -416,3 +416,33 @@ Example C19_dynqueue_refusals :
   queue_refs_ok [("constructor", "init"); ("apply", "empty"); ("apply", "assign"); ("apply", "front"); ("apply", "pop")]%string = false /\
   hdr_ok (mkfor 1 (BParam "steps") 1) = false.
 Proof. repeat split; vm_compute; reflexivity. Qed.
+
+(** * Observer-guarded statements of main() and the pending RF records (strengthening driven by seed F6-J;
+      Model/Observers.v, Proofs/ObserversP.v, per-run obligations in Proofs/ObserversMainP.v)
+
+    [C19_main_prog_records] speaks about [main_prog], in which `getPastModulation()` occurs only as the argument of
+    `appendRFKicks`.  Statements of main() guarded by the verbosity are not part of [main_prog]; the translator lists
+    them with what they do ([loop_observers]), `getPastModulation()` with the effect translate/dynqueue2coq.py reads
+    off its body ([main_getpast] = the generated [dq_getpast_ops]).  Per-run obligation: each of them is pure - executed
+    in any state, it leaves the queue, the pending records and everything else of the model's state as they are - so
+    the theorems about [main_prog] are theorems about verbose runs as well. *)
+From Inovesa Require Model.Observers Proofs.ObserversP Proofs.ObserversMainP.
+
+Theorem C19_loop_observers_keep_pending_records :
+  Observers.observers_pure ObserversMainP.main_getpast Gen_MainLoop.loop_observers = true /\
+  forall (K : Driver.kern) (sig : Z -> bool) (cf : Driver.cfg) (junk : list (Driver.tMd K)) (unk : String.string -> Driver.st K -> Driver.st K)
+         (o : Observers.ostmt) (s : Driver.st K),
+    In o Gen_MainLoop.loop_observers -> Observers.oexec_stmt sig cf junk ObserversMainP.main_getpast unk o s = s.
+Proof. exact (conj ObserversMainP.main_loop_observers_checked (fun K => ObserversMainP.main_loop_observers_pure K)). Qed.
+Print Assumptions C19_loop_observers_keep_pending_records.
+
+(** ... and why `getPastModulation()` may not stand under such a guard: with the body generated today it is refused by
+    the checker, and executed there it empties the list of pending records - the `appendRFKicks(getPastModulation())`
+    that follows writes an empty chunk (the records of the steps since the last output are lost) *)
+Theorem C19_getpast_under_observer_loses_records :
+  Observers.oeff_pure ObserversMainP.main_getpast (Observers.OGetPast "drfm") = false /\
+  forall (K : Driver.kern) (sig : Z -> bool) (cf : Driver.cfg) (junk : list (Driver.tMd K)) (unk : String.string -> Driver.st K -> Driver.st K) (s : Driver.st K),
+    Driver.past (Observers.oexec sig cf junk ObserversMainP.main_getpast unk (Observers.OGetPast "drfm") s) = [] /\
+    Driver.recs cf Driver.ARFKicks (Observers.oexec sig cf junk ObserversMainP.main_getpast unk (Observers.OGetPast "drfm") s) = [Driver.mkrec (Driver.k s) (Driver.RRF [])].
+Proof. exact (conj ObserversMainP.main_getpast_is_not_pure (fun K => ObserversMainP.main_getpast_under_observer_loses_records K)). Qed.
+Print Assumptions C19_getpast_under_observer_loses_records.
